@@ -28,33 +28,7 @@ REVIEWED = {
 }
 
 
-def guards_of(f: FuncInfo, stmt: ast.stmt) -> list[str]:
-    """Conditions known true at stmt: enclosing if-tests and preceding `if c: continue` in the same loop body."""
-    out = []
-
-    def rec(body, acc):
-        local = list(acc)
-        for s in body:
-            if s is stmt:
-                out.extend(local)
-                return True
-            if isinstance(s, ast.If):
-                if rec(s.body, local + [norm(s.test)]):
-                    return True
-                if rec(s.orelse, local + [f"not ({norm(s.test)})"]):
-                    return True
-                if len(s.body) == 1 and isinstance(s.body[0], (ast.Continue, ast.Break, ast.Return)) and not s.orelse:
-                    local.append(f"not ({norm(s.test)})")
-            elif isinstance(s, (ast.For, ast.While)):
-                if rec(s.body, local) or rec(s.orelse, local):
-                    return True
-            elif isinstance(s, ast.With):
-                if rec(s.body, local):
-                    return True
-        return False
-
-    rec(f.node.body, [])
-    return out
+from .util import guards_of  # noqa: E402
 
 
 def display_sorting_ok(P: Program, R: Report, rule: str) -> None:
